@@ -540,7 +540,7 @@ func TestCheck(t *testing.T) {
 
 	rng := r.Rand("c06")
 	g := &batchGen{rng: rng}
-	nMaps := r.N(2400, 50000)
+	nMaps := r.N(2400, 250000)
 	perMap := r.Pick(8, maxCount)
 	for i := 0; i < nMaps; i++ {
 		dps := g.batch(40)
@@ -555,7 +555,7 @@ func TestCheck(t *testing.T) {
 	}
 	r.Extra("resplit_observations", c.resplt)
 
-	nE2E := r.N(240, 6000)
+	nE2E := r.N(240, 30000)
 	for i := 0; i < nE2E; i++ {
 		cs := e2eCase{Kind: "e2e", Forwarded: rng.Intn(2) == 0, Workers: 1 + rng.Intn(16), Buffer: rng.Intn(5), Dispatchers: 1 + rng.Intn(3)}
 		if rng.Intn(6) == 0 {
